@@ -5,6 +5,7 @@ import os
 
 VERIF = os.path.dirname(os.path.dirname(os.path.abspath(__file__)))
 REPLAYS = os.path.join(VERIF, 'replays')
+_SEARCHED = {}
 
 
 def make_replay(pid, r, d, key, tier, seed, i):
@@ -20,13 +21,19 @@ def make_replay(pid, r, d, key, tier, seed, i):
         'generated_file': r.path,
         'input': None,
     }
-    try:
-        import witness
-        w = witness.search(pid, r, d, key, tier, seed)
-        if w:
-            rec['input'] = w
-    except ImportError:
-        pass
+    fn = key.get('fn')
+    if fn in _SEARCHED:
+        rec['input'] = _SEARCHED[fn]
+    elif len(_SEARCHED) < (6 if tier == 'thorough' else 3):
+        try:
+            import witness
+            pair = ('dev', 'release') if (pid == 'C20' and key.get('kind') == 'overflow') else None
+            w = witness.search(pid, r, d, key, tier, seed, profile_pair=pair)
+        except Exception as ex:      # the search is best effort; the violation stands without an input
+            rec['witness_search_error'] = str(ex)[:500]
+            w = None
+        _SEARCHED[fn] = w
+        rec['input'] = w
     with open(path, 'w') as f:
         json.dump(rec, f, indent=1)
     return path
